@@ -463,6 +463,10 @@ func execFx(op string) string {
 	if script == "-" {
 		script = ""
 	}
+	select { // a script left over from a case that ended in a panic
+	case <-upScript:
+	default:
+	}
 	upScript <- script + "."
 	ret, resp := hd(req)
 	select { // the script was not consumed when nothing was sent
